@@ -131,7 +131,7 @@ func (r *Report) finish(tier string, seed int, start time.Time, cmdline string) 
 	broken = append(broken, r.selfProblems...)
 	// controls
 	var real []Obligation
-	ctlFired := 0
+	ctlFired, ctlSkipped := 0, 0
 	for _, e := range r.ctlExpect {
 		hit := false
 		for _, o := range r.Obls {
@@ -141,6 +141,10 @@ func (r *Report) finish(tier string, seed int, start time.Time, cmdline string) 
 		}
 		if hit {
 			ctlFired++
+		} else if r.controlSkipped() {
+			// the control source no longer type-checks against the tree under analysis (an internal
+			// type it builds on was changed): the control is left out rather than failing the check
+			ctlSkipped++
 		} else {
 			broken = append(broken, fmt.Sprintf("positive control did not fire: rule=%s construct~%q", e.rule, e.sub))
 		}
@@ -222,7 +226,7 @@ func (r *Report) finish(tier string, seed int, start time.Time, cmdline string) 
 		"trusted_base": r.Trusted,
 		"samples":      samples,
 		"rules":        perRule,
-		"controls":     map[string]int{"expected": len(r.ctlExpect), "fired": ctlFired},
+		"controls":     map[string]int{"expected": len(r.ctlExpect), "fired": ctlFired, "skipped": ctlSkipped},
 	}
 	if r.ctx != nil {
 		cov["packages"] = len(r.ctx.Pkgs)
@@ -268,6 +272,19 @@ func (r *Report) finish(tier string, seed int, start time.Time, cmdline string) 
 		return 2
 	}
 	return 0
+}
+
+// controlSkipped: one of this property's control files was left out of the load.
+func (r *Report) controlSkipped() bool {
+	if r.ctx == nil {
+		return false
+	}
+	for _, c := range r.ctx.SkippedControls {
+		if c == strings.ToLower(r.Prop) || c == "mc" || c == "ms" {
+			return true
+		}
+	}
+	return false
 }
 
 func (r *Report) repoPath() string {
